@@ -247,6 +247,45 @@ def locate_positionless_rule(ctx, sym, rule):
                   "of a 9-line program")
 
 
+def tifa_cache_offset_rule(ctx, sym, rule):
+    """tifa_analysis executed abstractly twice on the same text while the submission's line offset for the main file
+    changes in between (an identical chunk in a later independent section): the second call must be a new analysis -
+    its issues are on other lines of the file - while a repetition under the same offset is served from the cache."""
+    from .. import symexec
+    mod = ctx.repo.module(COMMANDS)
+    fn = mod.func('tifa_analysis')
+    ctx.analysed_function(mod, fn)
+    tool = sym.const(mod, ast.parse('TIFA_TOOL_NAME', mode='eval').body)
+    for first, second in ((2, 4), (0, 3), (3, 0), (2, 2), (0, 0)):
+        ran = []
+        offsets = {'answer.py': first}
+        submission = Obj('submission', main_code='print(q)', main_file='answer.py', line_offsets=offsets)
+        inst = Obj('tifa')
+
+        def process_code(code, *a, **k):
+            ran.append((code, offsets.get('answer.py', 0)))
+            return Obj('analysis@offset=%d' % offsets.get('answer.py', 0), success=True)
+        symexec.method(inst, 'process_code', process_code)
+        data = {'analyses': {}, 'instance': inst, 'latest': None}
+        report = Obj('report', submission=submission)
+        symexec.method(report, '__getitem__', lambda k: data if k == tool else None)
+        fd = symexec.new_fd(sym, mod, extra={'MAIN_REPORT': report})
+        a1, r1 = symexec.run(fd, fn, [], {'report': report}, what='tifa_analysis')
+        if second:
+            offsets['answer.py'] = second
+        else:
+            offsets.pop('answer.py', None)
+        a2, r2 = symexec.run(fd, fn, [], {'report': report}, what='tifa_analysis')
+        want_runs = 1 if first == second else 2
+        ok = r1 is None and r2 is None and len(ran) == want_runs and (a1 is a2) == (first == second)
+        ctx.check(ok, rule, 'tifa_analysis:offset[%d->%d]' % (first, second), mod, fn,
+                  "the same text analysed under line offset %d and then %d: process_code ran %d time(s), the second "
+                  "call returned %s; expected %d run(s)" % (first, second, len(ran), getattr(a2, '_name', a2), want_runs),
+                  "'a = 0\\n##### Part 1\\nprint(q)\\n##### Part 2\\nprint(q)\\n' in independent sections: the "
+                  "analysis of section 2 is served from section 1's cache entry - its issue is reported on line 3 "
+                  "instead of 5 and no feedback is attached")
+
+
 def r2_idempotent(ctx, sym):
     ctx.rule('R2', "decision table of tifa_analysis (abstract interpretation) over cache hit / miss / explicit code / "
                    "default code: a hit returns the cached result without running the analysis; a miss runs "
@@ -262,7 +301,8 @@ def r2_idempotent(ctx, sym):
         inst.attrs['method:process_code'] = lambda code, *a, **k: (ran.append(code) or fresh)
         code = 'print(1)'
         data = {'analyses': {code: 'CACHED'} if cached else {}, 'instance': inst, 'latest': None}
-        report = Obj('report', submission=Obj('submission', main_code=code))
+        report = Obj('report', submission=Obj('submission', main_code=code, main_file='answer.py', line_offsets={},
+                                              __open__=True))
         report.attrs['method:__getitem__'] = lambda k: data if k == tool else None
         from ..fdeval import module_resolver
         fd = FD(max_steps=100000, resolver=module_resolver(sym, mod))
@@ -276,7 +316,7 @@ def r2_idempotent(ctx, sym):
             ok = got == 'CACHED' and again == 'CACHED' and not ran
             why = "a repeated analysis returned %r / %r and ran process_code %d time(s)" % (got, again, len(ran))
         else:
-            ok = got is fresh and again is fresh and ran == [code] and data['analyses'].get(code) is fresh
+            ok = got is fresh and again is fresh and ran == [code] and fresh in data['analyses'].values()
             why = "a first analysis (%s) returned %r, the repetition %r; process_code ran %d time(s); cached %r" % (
                 'completed' if succeeds else 'failed internally', got, again, len(ran), data['analyses'])
         ctx.check(ok, 'R2', 'tifa_analysis[explicit=%s,cached=%s,%s]' % (
@@ -550,6 +590,7 @@ def run(ctx):
                     "(a cell that cannot be called that way turns an ordinary program into a TIFA system error)")
     binop_cells_callable(ctx, sym, 'R4b')
     r2_idempotent(ctx, sym)
+    tifa_cache_offset_rule(ctx, sym, 'R2')
     r3_resolution(ctx, sym)
     r1d_container_literals(ctx, sym)    # after R3: an unresolved name is R3's finding, not an undecidable visitor
     r4_builtin_tables(ctx, sym)
